@@ -258,6 +258,8 @@ func predOf(p string, loc uint64) (bundle.Filter, string) {
 		return bundle.IsVerifiedMacaroon, p
 	case "PNonMac":
 		return bundle.IsNonMacaroon, p
+	case "PHas3P":
+		return bundle.Predicate(bundle.HasCaveat[*macaroon.Caveat3P]), p
 	}
 	return bundle.LocationFilter(bLocs[loc]), coqw.App("PLoc", coqw.N(loc)) // a non-Predicate Filter (exercises Count's other branch)
 }
@@ -270,7 +272,7 @@ func (w *bWorld) randFilt(r *rng.R, b *bundle.Bundle, depth int) (bundle.Filter,
 	}
 	switch k {
 	case 0:
-		p, pc := predOf(rng.Pick(r, []string{"PAll", "PNone", "PPerm", "PNotPerm", "PWellFormed", "PVerified", "PNonMac", "PLoc"}), uint64(r.Intn(4)))
+		p, pc := predOf(rng.Pick(r, []string{"PAll", "PNone", "PPerm", "PNotPerm", "PWellFormed", "PVerified", "PNonMac", "PLoc", "PHas3P"}), uint64(r.Intn(4)))
 		return p, coqw.App("FPred", pc)
 	case 1:
 		tp := uint64(1 + r.Intn(2))
@@ -772,7 +774,7 @@ func genBundle(c *ctx, cached bool) {
 				err := b.AddTokens(hdr)
 				rec(coqw.App("BAdd", coqw.N(s), ts), []int64{b2i64x(err == nil)})
 			case 2:
-				p, pc := predOf(rng.Pick(r, []string{"PAll", "PNone", "PPerm", "PNotPerm", "PWellFormed", "PVerified", "PNonMac", "PLoc"}), uint64(r.Intn(4)))
+				p, pc := predOf(rng.Pick(r, []string{"PAll", "PNone", "PPerm", "PNotPerm", "PWellFormed", "PVerified", "PNonMac", "PLoc", "PHas3P"}), uint64(r.Intn(4)))
 				if r.Bool() {
 					d := newSlot()
 					w.slots[d] = b.Select(p)
@@ -836,6 +838,18 @@ func genBundle(c *ctx, cached bool) {
 				}
 			case 8:
 				rec(coqw.App("BLen", coqw.N(s)), []int64{int64(b.Len())})
+				// Map / ForEach / Reduce visit exactly the tokens, in order
+				strs := bundle.Map(b, func(t bundle.Token) string { return t.String() })
+				cnt := bundle.Reduce(b, func(n int, t bundle.Token) int { return n + 1 })
+				if (len(strs) > 0 && "FlyV1 "+strings.Join(strs, ",") != b.Header()) || cnt != b.Len() || len(strs) != b.Len() {
+					if oracle == "" {
+						oracle = fmt.Sprintf("Map/Reduce over the bundle disagree with Header()/Len(): %d strings, count %d, Len %d", len(strs), cnt, b.Len())
+					}
+				}
+				nm := bundle.Map(b, func(t bundle.Macaroon) string { return t.String() })
+				if want := b.Count(bundle.IsWellFormedMacaroon); len(nm) != want && oracle == "" {
+					oracle = fmt.Sprintf("Map over the macaroons of the bundle yields %d entries, Count(IsWellFormedMacaroon) = %d", len(nm), want)
+				}
 			case 9:
 				cl := uint64(r.Intn(4)) // (list 4 is used by the scripted failing attenuation only)
 				w.recordAtt(b, cl)
